@@ -20,6 +20,9 @@ WRAPPERS = [
     ("result-ok", "Result<{T}, bool>"),
     ("result-err", "Result<bool, {T}>"),
     ("nested", "Sequence<Dictionary<string, {T}?>>"),
+    # tagged members (legal only outside compact types, where the tag is simply left out): a tagged field is contained all the same
+    ("tagged-optional", "{T}?"),
+    ("tagged-sequence", "Sequence<{T}>?"),
 ]
 KINDS = ["struct", "compact struct", "enum"]
 
@@ -90,41 +93,61 @@ def on_cycle(n, edges):
 # ---------------------------------------------------------------------------------------------------------------
 # containment
 
-def containment_program(n, edges, kinds):
-    """edges: list of (src, dst, wrapper_index). Returns (text, fields) with fields[(src_name, field_name)] = (type_text, dst_name)."""
+def containment_program(n, edges, kinds, naming=None):
+    """edges: list of (src, dst, wrapper_index). naming: node -> (module, identifier); by default everything is M::N<i>.
+    Returns (text | [texts], fields) with fields[(scoped src, field_name)] = (type_text, scoped dst, kind, (file index, row)).
+    With a naming, one file per module is produced and types are referenced by their global names (so that types of the
+    same identifier in different modules can contain each other)."""
     fields = {}
     per = {i: [] for i in range(n)}
     for j, (a, b, w) in enumerate(edges):
         per[a].append((j, b, w))
-    lines = ["module M"]
+    if naming is None:
+        naming_ = lambda i: ("M", "N%d" % i)
+        spell = lambda i: "N%d" % i
+    else:
+        naming_ = naming
+        spell = lambda i: "::%s::%s" % naming(i)
+    modules = []
     for i in range(n):
-        name = "N%d" % i
+        if naming_(i)[0] not in modules:
+            modules.append(naming_(i)[0])
+    files = {m: ["module " + m] for m in modules}
+    for i in range(n):
+        module, name = naming_(i)
+        scoped = module + "::" + name
+        lines = files[module]
+        where = (modules.index(module), len(lines) + 1)
         kind = kinds[i]
         if kind == "enum":
             body = ["Z"]
             for j, b, w in per[i]:
-                ttext = WRAPPERS[w][1].format(T="N%d" % b)
+                ttext = WRAPPERS[w][1].format(T=spell(b))
                 fname = "e%d" % j
-                body.append("V%d(%s: %s)" % (j, fname, ttext))
-                fields[(name, fname)] = (ttext, "N%d" % b, "enum")
+                tag = "tag(%d) " % j if WRAPPERS[w][0].startswith("tagged") else ""
+                body.append("V%d(%s%s: %s)" % (j, tag, fname, ttext))
+                fields[(scoped, fname)] = (ttext, "%s::%s" % naming_(b), "enum", where)
             lines.append("enum %s { %s }" % (name, ", ".join(body)))
         else:
             body = ["x: bool"]
             for j, b, w in per[i]:
-                ttext = WRAPPERS[w][1].format(T="N%d" % b)
+                ttext = WRAPPERS[w][1].format(T=spell(b))
                 fname = "e%d" % j
-                body.append("%s: %s" % (fname, ttext))
-                fields[(name, fname)] = (ttext, "N%d" % b, "struct")
+                tag = "tag(%d) " % j if WRAPPERS[w][0].startswith("tagged") and kind == "struct" else ""
+                body.append("%s%s: %s" % (tag, fname, ttext))
+                fields[(scoped, fname)] = (ttext, "%s::%s" % naming_(b), "struct", where)
             lines.append("%s %s { %s }" % (kind, name, ", ".join(body)))
-    return "\n".join(lines) + "\n", fields
+    texts = ["\n".join(files[m]) + "\n" for m in modules]
+    return (texts[0] if naming is None else texts), fields
 
 
 E032_RE = re.compile(r"^type (\S+) illegally references itself: (.*)$")
 NOTE_RE = re.compile(r"^(struct|enum) '([^']+)' contains a field named '([^']+)' that is of type '(.*)'$")
 
 
-def judge_containment(ctx, text, n, edges, fields, resp, family):
-    replay = {"kind": "library", "call": "compile_from_strings", "files": [text], "family": family}
+def judge_containment(ctx, text, n, edges, fields, resp, family, naming=None):
+    replay = {"kind": "library", "call": "compile_from_strings", "files": text if isinstance(text, list) else [text], "family": family}
+    scoped = (lambda i: "M::N%d" % i) if naming is None else (lambda i: "%s::%s" % naming(i))
     if "died" in resp or resp.get("panic"):
         p = resp.get("panic") or {"message": "worker " + resp["died"], "location": "?"}
         ctx.violate(core.panic_signature(p), "cycle detection crashed: %s" % p, replay)
@@ -142,23 +165,25 @@ def judge_containment(ctx, text, n, edges, fields, resp, family):
     ctx.stats["cyclic_cases"] += 1
     if not e032:
         ctx.violate("cycle-not-reported:" + family, "containment cycle through %s not reported (diagnostics: %s)"
-                    % (sorted("N%d" % i for i in cyc_nodes), [d["code"] for d in diags]), replay)
+                    % (sorted(scoped(i) for i in cyc_nodes), [d["code"] for d in diags]), replay)
         return
     named = set()
-    edge_set = set(("N%d" % a, "N%d" % b) for a, b in plain_edges)
+    edge_set = set((scoped(a), scoped(b)) for a, b in plain_edges)
+    all_names = set(scoped(i) for i in range(n))
     for d in e032:
         m = E032_RE.match(d["message"].replace("invalid syntax: ", ""))
         if not m:
             ctx.violate("e032-unparsable", "cannot parse E032 message %r" % d["message"], replay)
             continue
         type_id, chain = m.group(1), [c.strip() for c in m.group(2).split("->")]
-        short = [c.split("::")[-1] for c in chain]
+        short = chain
         ctx.stats["chains_checked"] += 1
         if chain[0] != type_id or chain[-1] != type_id or len(chain) < 2:
             ctx.violate("chain-not-closed", "reported chain %r does not start and end at %s" % (chain, type_id), replay)
             continue
-        if any(not c.startswith("M::") for c in chain):
-            ctx.violate("chain-type-id-not-scoped", "chain %r uses unscoped type ids" % (chain,), replay)
+        if any(c not in all_names for c in chain):
+            ctx.violate("chain-type-id-not-scoped", "chain %r uses type ids that are not the scoped names of the types" % (chain,), replay)
+            continue
         bad = [(a, b) for a, b in zip(short, short[1:]) if (a, b) not in edge_set]
         if bad:
             ctx.violate("chain-not-a-path", "reported chain %r uses %r which is not a field edge" % (chain, bad[0]), replay)
@@ -174,21 +199,22 @@ def judge_containment(ctx, text, n, edges, fields, resp, family):
                 ctx.violate("note-unparsable", "cannot parse note %r" % note["message"], replay)
                 break
             kind, container, fname, ttext = nm.groups()
-            f = fields.get((container, fname))
+            f = fields.get((a, fname))
             ctx.stats["notes_checked"] += 1
-            if container != a or f is None or f[1] != b or f[2] != kind or f[0].replace(" ", "") != ttext.replace(" ", ""):
+            if container != a.split("::")[-1] or f is None or f[1] != b or f[2] != kind or \
+                    re.sub(r"(::)?(\w+::)+", "", f[0]).replace(" ", "") != re.sub(r"(::)?(\w+::)+", "", ttext).replace(" ", ""):
                 ctx.violate("note-not-a-real-field", "note %r does not describe a real field leading from %s to %s (model: %r)"
                             % (note["message"], a, b, f), replay)
                 break
-            # the note's span must be the field's line (all on distinct definitions: row = node index + 2)
-            if note["span"] and note["span"][0] != int(container[1:]) + 2:
-                ctx.violate("note-span-wrong-line", "note %r points at line %d" % (note["message"], note["span"][0]), replay)
+            # the note's span must be the field's line (one definition per line) in the right file
+            if note["span"] and (note["span"][0] != f[3][1] or note["span"][4] != "string-%d" % f[3][0]):
+                ctx.violate("note-span-wrong-line", "note %r points at %s line %d" % (note["message"], note["span"][4], note["span"][0]), replay)
                 break
-    missing = set("N%d" % i for i in cyc_nodes) - named
+    missing = set(scoped(i) for i in cyc_nodes) - named
     if missing:
         ctx.violate("cyclic-type-not-named:" + family, "types %s lie on a cycle but no reported chain names them (chains: %s)"
                     % (sorted(missing), [d["message"] for d in e032]), replay)
-    extra = named - set("N%d" % i for i in cyc_nodes)
+    extra = named - set(scoped(i) for i in cyc_nodes)
     if extra:
         ctx.violate("acyclic-type-in-chain:" + family, "chains name %s which lie on no cycle" % sorted(extra), replay)
 
@@ -200,8 +226,8 @@ def all_digraphs(n):
 
 
 def run_batch(ctx, items, judge):
-    """items: list of (text, payload...)"""
-    reqs = [{"op": "compile", "files": [it[0]], "want": ["diags"]} for it in items]
+    """items: list of (text | [texts], payload...)"""
+    reqs = [{"op": "compile", "files": it[0] if isinstance(it[0], list) else [it[0]], "want": ["diags"]} for it in items]
     resps = ctx.worker.batch(reqs)
     for it, r in zip(items, resps):
         judge(it, r)
@@ -261,6 +287,32 @@ def run_shard(ctx, spec):
         run_batch(ctx, items, lambda it, r: judge_containment(ctx, it[0], it[1], it[2], it[3], r, "random"))
         if items:
             ctx.sample({"family": "random containment graph", "program": items[0][0]}, limit=1)
+    elif kind == "containment-modules":
+        # the same identifiers in several modules (A::N0, B::N0, ...), one file per module, global spellings: anything keyed by
+        # the unqualified identifier confuses a type with its namesake
+        _, count, idx = spec
+        rng = ctx.rng("cm/%d" % idx)
+        items = []
+        for ci in range(count):
+            n = rng.randint(2, 6)
+            nmod = rng.choice([2, 2, 3])
+            mods = ["A", "B", "A::C"][:nmod]
+            naming = (lambda mods: (lambda i: (mods[i % len(mods)], "N%d" % (i // len(mods)))))(mods)
+            if ci % 3 == 0:
+                # exhaustive-ish small case: 2 namesakes + maybe a third, every edge subset is reachable over the run
+                n = rng.choice([2, 3])
+            m = rng.randint(1, int(1.6 * n))
+            edges = [(rng.randrange(n), rng.randrange(n), rng.randrange(len(WRAPPERS))) for _ in range(m)]
+            kinds = [rng.choice(KINDS) for _ in range(n)]
+            texts, fields = containment_program(n, edges, kinds, naming)
+            if rng.random() < 0.5:
+                pass
+            items.append((texts, n, edges, fields, naming))
+            ctx.note_case(("cm", n, nmod, tuple(edges), tuple(kinds)))
+        run_batch(ctx, items, lambda it, r: judge_containment(ctx, it[0], it[1], it[2], it[3], r, "modules", it[4]))
+        ctx.stats["containment_module_cases"] += len(items)
+        if items:
+            ctx.sample({"family": "containment between namesakes in different modules", "files": items[0][0]}, limit=1)
     elif kind == "alias":
         _, idx, nshards = spec
         n = 4
@@ -396,6 +448,8 @@ def plan(tier, seed):
     specs += [("containment-4", i, 16, 1 / 4 if tier == "quick" else 1) for i in range(16)]
     nrand = 20000 if tier == "quick" else 300000
     specs += [("containment-random", nrand // 16, i) for i in range(16)]
+    ncm = 8000 if tier == "quick" else 150000
+    specs += [("containment-modules", ncm // 16, i) for i in range(16)]
     specs += [("alias", i, 8) for i in range(8)]
     specs += [("alias-anon", (30000 if tier == "quick" else 400000) // 16, i) for i in range(16)]
     specs += [("inherit", 1, 0, 1), ("inherit", 2, 0, 1)] + [("inherit", 3, i, 4) for i in range(4)]
@@ -410,16 +464,18 @@ def main(tier, seed):
     return core.finish(
         run, "exploration",
         rule=("each case is a program generated from a graph: containment between struct / compact struct / enum-with-fields nodes "
-              "(all digraphs with self-loops on <= 3 nodes x 8 wrapper rotations so that every edge meets every wrapper form; all "
-              "65536 digraphs on 4 nodes in thorough, a seed-rotated 1/4 in quick; random graphs on 5-10 nodes with multi-edges), "
+              "(all digraphs with self-loops on <= 3 nodes x %d wrapper rotations so that every edge meets every wrapper form; all "
+              "65536 digraphs on 4 nodes in thorough, a seed-rotated 1/4 in quick; random graphs on 5-10 nodes with multi-edges; "
+              "random graphs on 2-6 nodes spread over 2-3 modules/files so that types share identifiers across modules; wrapper "
+              "forms include tagged optional members), "
               "all 5^4 alias target graphs, all inheritance digraphs on <= 3 (thorough 4) interfaces. Reference: SCCs of the "
               "generating graph; every reported chain and note is validated against the generated fields. distinct_nontrivial = "
-              "distinct graphs (with wrappers and node kinds) having at least one edge"),
+              "distinct graphs (with wrappers and node kinds) having at least one edge" % len(WRAPPERS)),
         required={"cyclic_cases": 500, "acyclic_cases": 50, "chains_checked": 500, "notes_checked": 500, "alias_cyclic": 100,
-                  "alias_acyclic": 50, "inherit_acyclic": 20, "inherit_cyclic": 20, "alias_anon_graphs": 1000},
+                  "alias_acyclic": 50, "inherit_acyclic": 20, "inherit_cyclic": 20, "alias_anon_graphs": 1000, "containment_module_cases": 4000},
         assumptions=["a cycle through an optional, sequence, dictionary (key or value) or result is illegal, as the statement says",
                      "for alias and inheritance loops only rejection (some error, no crash) is required, not a particular code, "
                      "except that E019 must name an alias that really is on a loop"],
         exhaustive=True,
-        extra_coverage={"exhaustive_space": "all digraphs on <= 3 nodes x 8 wrapper rotations; all 625 alias graphs; all inheritance digraphs on <= 3 nodes"},
+        extra_coverage={"exhaustive_space": "all digraphs on <= 3 nodes x %d wrapper rotations; all 625 alias graphs; all inheritance digraphs on <= 3 nodes" % len(WRAPPERS)},
     )
